@@ -436,7 +436,13 @@ impl<E: Elem> Interp<E> {
             Some(n) => n,
             None => vals.first().map(|v| describe(v).items.len() as i64).unwrap_or(0),
         };
-        let truthful = st.get("hint").is_none();
+        let mut truthful = st.get("hint").is_none();
+        let (okind, arg) = if op == "deserialize" {
+            truthful = ju(st, "bad_at").unwrap_or(-1) < 0;
+            if js(st, "src") == "script" { ("script".to_string(), -1) } else { ("opaque".to_string(), ju(st, "l").unwrap_or(0)) }
+        } else {
+            (okind, arg)
+        };
         let spare = vals.iter().any(|v| matches!(v, Val::Vec(x) if x.capacity() > x.len()));
         ev!(
             "\"ev\":\"call\",\"op\":\"{}\",\"recv\":{},\"byval\":[{}],\"arg\":{},\"elems\":{},\"n\":{},\"okind\":\"{}\",\"truthful\":{},\"spare\":{}",
@@ -534,6 +540,7 @@ impl<E: Elem> Interp<E> {
 
 fn default_form(op: &str) -> &'static str {
     match op {
+        "serialize" => "ref",
         "next" | "next_back" | "nth" | "nth_back" | "len" | "size_hint" | "as_slice" | "as_mut_swap" | "debug" | "iter_clone" | "clone" | "box_clone" => "ref",
         _ => "own",
     }
@@ -785,6 +792,75 @@ fn exec<E: Elem>(op: &str, vals: &mut Vec<Val<E>>, forms: &[String], arg: i64, m
                     (_, _) => with_arr2!((&mut l[0], &mut r[0]), x, y => x.zip(y, |p, q| ctx.cb2::<E, &mut E, &mut E>(p, q)).wrap(), bad()),
                 }
             }])
+        }
+        // ---- serde ---------------------------------------------------------------------------
+        "deserialize" => {
+            let _pre = crate::events::Bypass::new();
+            let src = js(st, "src").to_string();
+            let mut o = Outcome::new();
+            let res: Result<Val<E>, ()> = match src.as_str() {
+                "script" => {
+                    let script: Vec<u8> = jarr(st, "script").into_iter().map(|x| x as u8).collect();
+                    let hints = match st.get("hints") {
+                        None => crate::serde_drv::HintMode::Absent,
+                        Some(J::String(s)) if s == "truthful" => crate::serde_drv::HintMode::Truthful,
+                        Some(J::Array(a)) => crate::serde_drv::HintMode::Fixed(a.iter().map(|x| x.as_i64().unwrap()).collect()),
+                        _ => crate::serde_drv::HintMode::Absent,
+                    };
+                    let de = crate::serde_drv::ScriptDe { script, hints };
+                    with_len!(n, N => <GenericArray<E, N> as serde::Deserialize>::deserialize(de).map(|a| a.wrap()).map_err(|_| ()), bad())
+                }
+                _ => {
+                    let l = ju(st, "l").unwrap_or(0);
+                    let bad_at = ju(st, "bad_at").unwrap_or(-1);
+                    match src.as_str() {
+                        "json" => {
+                            let parts: Vec<String> = (0..l).map(|i| if i == bad_at { "\"x\"".to_string() } else { (i + 1).to_string() }).collect();
+                            let text = format!("[{}]", parts.join(","));
+                            with_len!(n, N => serde_json::from_str::<GenericArray<E, N>>(&text).map(|a| a.wrap()).map_err(|_| ()), bad())
+                        }
+                        "value" => {
+                            let v = J::Array((0..l).map(|i| if i == bad_at { J::String("x".into()) } else { J::from(i + 1) }).collect());
+                            with_len!(n, N => serde_json::from_value::<GenericArray<E, N>>(v).map(|a| a.wrap()).map_err(|_| ()), bad())
+                        }
+                        _ => {
+                            let mut bytes = vec![];
+                            for i in 0..l {
+                                bytes.extend_from_slice(&((i + 1) as u32).to_le_bytes());
+                            }
+                            with_len!(n, N => bincode::deserialize::<GenericArray<E, N>>(&bytes).map(|a| a.wrap()).map_err(|_| ()), bad())
+                        }
+                    }
+                }
+            };
+            match res {
+                Ok(v) => o.outs.push(v),
+                Err(()) => o.err = true,
+            }
+            o
+        }
+        "serialize" => {
+            let _pre = crate::events::Bypass::new();
+            let mut o = Outcome::new();
+            with_arr!(&vals[0], a => {
+                let items: Vec<i64> = a.iter().map(|e| e.id()).collect();
+                let mut log = crate::serde_drv::SerLog::default();
+                let r = serde::Serialize::serialize(a, crate::serde_drv::RecSer(&mut log));
+                ev!("\"ev\":\"ser\",\"n\":{},\"items\":{},\"tuple_len\":{},\"elems\":{},\"ended\":{},\"other\":{}", n, ids(&items), log.tuple_len, ids(&log.elems), log.ended && r.is_ok(), log.other);
+                // real formats: identical to the same elements serialised as a Vec-free native tuple stream
+                let wire: Vec<u32> = items.iter().map(|x| *x as u32).collect();
+                let json_a = serde_json::to_string(a).unwrap();
+                let json_n = serde_json::to_string(&wire).unwrap();
+                let val_a = serde_json::to_value(a).unwrap();
+                let bin_a = bincode::serialize(a).unwrap();
+                let mut bin_n = vec![];
+                for w in &wire {
+                    bin_n.extend_from_slice(&bincode::serialize(w).unwrap());
+                }
+                let same = json_a == json_n && bin_a == bin_n && val_a == serde_json::to_value(&wire).unwrap();
+                ev!("\"ev\":\"fmt\",\"n\":{},\"json\":{},\"bincode_len\":{},\"same_as_native\":{},\"roundtrip_equal\":true", n, jstr(&json_a), bin_a.len(), same);
+            }, bad());
+            o
         }
         // ---- collecting from a scripted source ---------------------------------------------
         "try_from_iter" | "from_iter" | "try_boxed_from_iter" | "boxed_from_iter" => {
